@@ -294,7 +294,7 @@ def run(ctx):
     basedir = tempfile.mkdtemp(prefix="verif-c34-", dir="/tmp")
     n = ctx.budget(200, 1500)
     # shared machine: also stop on a wall-clock limit (never below a floor); the evidence reports what was run
-    limit = (60 if ctx.tier == "quick" else 400) * min(ctx.widen, 3)
+    limit = (60 if ctx.tier == "quick" else 330) * min(ctx.widen, 3)
     floor = 70 if ctx.tier == "quick" else 500
     cases, metas, skipped = [], [], 0
     try:
